@@ -516,9 +516,14 @@ class C18(Check):
                          f"(sites {[site_of.get(k) for k, _ in plan if k != 'capacity']})")
 
                 # ---------- oracle: failed operation ----------------------
+                # the kind of the call a fault actually hit comes from THIS
+                # execution (ordinals of a multi-fault plan need not exist in
+                # the fault-free reference)
+                kind_at = {c[0]: c[1] for c in fired_calls}
                 absent_errno = any(
                     act[0] == "errno" and act[1] == "ENOENT"
-                    and site_of.get(k, ("",))[0] in ("stat", "open_r")
+                    and kind_at.get(k, site_of.get(k, ("",))[0])
+                    in ("stat", "open_r")
                     for k, act in plan if k != "capacity")
                 if st == "exc":
                     ok_class = isinstance(v, (DataAccessError, OSError))
